@@ -866,8 +866,9 @@ def call_c18(case):
             sancls = _cls(san)
         except Exception:
             sancls = []
-        out.append({"kind": kind, "v": v, "base": base, "rew": r, "exc": exc0 or exc, "cls": _cls(v), "sancls": sancls,
-                    "plain": plain(v) and len(v) <= 60})
+        small = len(v) <= 60         # (the class strings are compared for short inputs only)
+        out.append({"kind": kind, "v": v, "base": base, "rew": r, "exc": exc0 or exc, "cls": _cls(v) if small else [], "sancls": sancls if small else [],
+                    "plain": plain(v) and small})
     return {"variants": out}
 
 
